@@ -233,6 +233,33 @@ impl<'g> Analysis<'g> {
     }
 }
 
+/// A derivation cycle A =>+ A exists (through unit steps: A -> alpha B beta with alpha and beta nullable).
+pub fn has_derivation_cycle(g: &Grammar) -> bool {
+    let a = Analysis::new(g);
+    let mut edge = vec![vec![false; g.n]; g.n];
+    for (l, rhs) in &g.prods {
+        for (i, s) in rhs.iter().enumerate() {
+            if let Sym::N(b) = s {
+                let others_nullable = rhs.iter().enumerate().all(|(j, x)| j == i || matches!(x, Sym::N(c) if a.nullable[*c as usize]));
+                if others_nullable {
+                    edge[*l as usize][*b as usize] = true;
+                }
+            }
+        }
+    }
+    // transitive closure
+    for k in 0..g.n {
+        for i in 0..g.n {
+            for j in 0..g.n {
+                if edge[i][k] && edge[k][j] {
+                    edge[i][j] = true;
+                }
+            }
+        }
+    }
+    (0..g.n).any(|i| edge[i][i])
+}
+
 /// An LR automaton: item sets with lookaheads and a deterministic transition function.
 #[derive(Clone, Debug)]
 pub struct Automaton {
